@@ -38,19 +38,21 @@ LmBadOf(o, st, params) ==
         judged == IsLinearModel(o.model) \/ o.recover
         \* "accuracy governed by the tolerance", in the quantity the stopping rule controls: the routine stops when the
         \* residual sum of squares S changes by less than tol, so S at the result may exceed its minimum (S at the
-        \* least-squares / generating parameters) by a small multiple of tol - whatever the conditioning of the design
+        \* least-squares / generating parameters) by a small multiple of tol.  In a narrow valley (lambda_min 1e-6) the
+        \* damped steps crawl and the change per pass drops below tol while S is still 20 tol above its minimum (found by
+        \* the thorough tier), so this conjunct, too, is for the property's well-conditioned designs only
         smin == SumSq(o.model, o.xs, o.ys, target)
         excess == FSub(SumSq(o.model, o.xs, o.ys, p), smin)
         sbound == FAdd(FMul(KS, o.tol), FMul(FMul(FOfInt(64), FEps), FAdd(F1, smin)))
         \* and in the parameters: S - S_min ~ d^T (J^T J) d for a parameter error d, so parameters are accurate to about
         \* sqrt(tol / lambda_min(J^T J)); lam is half the inverse-iteration estimate of lambda_min at the target (never
-        \* below the proven AM-GM lower bound); designs with lam < 1e-3 are not "well-conditioned" and are judged by
-        \* the sum of squares only
+        \* below the proven AM-GM lower bound); designs with lam < 1e-3 are not "well-conditioned": only termination,
+        \* finiteness and the error cases are judged on them
         lam == LambdaMinWorking(NormalMatrix(o.model, o.xs, target))
         wellc == FLe(FOfDec("1e-3"), lam)
         bound == FMul(FMul(KF, scale), FAdd(FSqrt(FDiv(o.tol, lam)), FOfDec("1e-7")))
     IN (IF ~VFinite(p) THEN {"fit_result_is_finite"} ELSE {})
-       \cup (IF VFinite(p) /\ judged /\ ~FLe(excess, sbound) THEN {"sum_of_squares_within_tolerance_of_its_minimum"} ELSE {})
+       \cup (IF VFinite(p) /\ judged /\ wellc /\ ~FLe(excess, sbound) THEN {"sum_of_squares_within_tolerance_of_its_minimum"} ELSE {})
        \cup (IF VFinite(p) /\ wellc /\ IsLinearModel(o.model) /\ ~FLe(VDistInf(p, target), bound) THEN {"linear_model_gets_the_least_squares_parameters"} ELSE {})
        \cup (IF VFinite(p) /\ wellc /\ ~IsLinearModel(o.model) /\ o.recover /\ ~FLe(VDistInf(p, target), bound)
                THEN {"model_generated_data_recover_the_true_parameters"} ELSE {})
